@@ -414,6 +414,15 @@ var c11Advertised = probe.Define("C11", "advertised", func(t *rapid.T) c11AdvIn 
 		if err := c11Hold("NewIKESAKey("+eName+")", 12, ref.Encrs[s.Encr].KeyLen, func() (uint16, int) { return got.EncrInfo.TransformID(), got.EncrInfo.GetKeyLength() }); err != nil {
 			return probe.Fail("%v", err)
 		}
+		// the caller refills ITS proposal value for the next negotiation; the SA still offers what was negotiated for it
+		c11Refill(back)
+		var again *message.Proposal
+		if err := probe.Try(func() error { var e error; again, e = got.ToProposal(); return e }); err != nil {
+			return probe.Fail("ToProposal of the SA built from a proposal: %v", err)
+		}
+		if c11PropIDs(again) != c11PropIDs(prop) {
+			return probe.Fail("after the caller reused its Proposal value for another negotiation the SA offers %s, negotiated was %s", c11PropIDs(again), c11PropIDs(prop))
+		}
 		return probe.OK(true, "ike-proposal")
 	}
 	// Child SA
@@ -483,26 +492,47 @@ var c11Advertised = probe.Define("C11", "advertised", func(t *rapid.T) c11AdvIn 
 	if err := probe.Try(func() error { return got.GenerateKeyForChildSA(ikeSA, []byte("Ni|Nr")) }); err != nil {
 		return probe.Fail("GenerateKeyForChildSA on the negotiated Child SA: %v", err)
 	}
+	c11Refill(back) // the caller's Proposal value goes into the next negotiation
 	var prop2 *message.Proposal
 	if err := probe.Try(func() error { var e error; prop2, e = got.ToProposal(); return e }); err != nil {
 		return probe.Fail("ToProposal of the keyed Child SA: %v", err)
 	}
-	ids := func(p *message.Proposal) string {
-		out := ""
-		for _, c := range []message.TransformContainer{p.EncryptionAlgorithm, p.PseudorandomFunction, p.IntegrityAlgorithm, p.DiffieHellmanGroup, p.ExtendedSequenceNumbers} {
-			out += "["
-			for _, tr := range c {
-				out += fmt.Sprintf("%d/%d/%v/%d ", tr.TransformType, tr.TransformID, tr.AttributePresent, tr.AttributeValue)
-			}
-			out += "]"
-		}
-		return out
-	}
-	if ids(prop2) != ids(prop) {
-		return probe.Fail("after its keys were derived the Child SA offers %s, negotiated was %s", ids(prop2), ids(prop))
+	if c11PropIDs(prop2) != c11PropIDs(prop) {
+		return probe.Fail("after its keys were derived the Child SA offers %s, negotiated was %s", c11PropIDs(prop2), c11PropIDs(prop))
 	}
 	return probe.OK(true, "child-proposal")
 })
+
+// c11PropIDs renders the transforms a proposal offers.
+func c11PropIDs(p *message.Proposal) string {
+	out := ""
+	for _, c := range []message.TransformContainer{p.EncryptionAlgorithm, p.PseudorandomFunction, p.IntegrityAlgorithm, p.DiffieHellmanGroup, p.ExtendedSequenceNumbers} {
+		out += "["
+		for _, tr := range c {
+			out += fmt.Sprintf("%d/%d/%v/%d ", tr.TransformType, tr.TransformID, tr.AttributePresent, tr.AttributeValue)
+		}
+		out += "]"
+	}
+	return out
+}
+
+// c11Refill: the caller uses its Proposal value again for the next negotiation (another suite: every transform it holds is
+// rewritten in place and the lists are replaced) - it was an argument, it belongs to the caller.
+func c11Refill(p *message.Proposal) {
+	for _, c := range []message.TransformContainer{p.EncryptionAlgorithm, p.PseudorandomFunction, p.IntegrityAlgorithm, p.DiffieHellmanGroup, p.ExtendedSequenceNumbers} {
+		for _, tr := range c {
+			tr.TransformID ^= 0x0101
+			tr.AttributeValue ^= 0x0180
+			tr.AttributePresent = !tr.AttributePresent
+		}
+	}
+	p.EncryptionAlgorithm = message.TransformContainer{{TransformType: 1, TransformID: 3}}
+	p.PseudorandomFunction = message.TransformContainer{{TransformType: 2, TransformID: 1}}
+	p.IntegrityAlgorithm = nil
+	p.DiffieHellmanGroup = message.TransformContainer{{TransformType: 4, TransformID: 5}}
+	p.ExtendedSequenceNumbers = nil
+	p.ProposalNumber, p.ProtocolID, p.SPI = 9, 2, []byte{1, 2, 3, 4}
+}
 
 // Two negotiations in flight: the descriptors obtained for the first one must still describe it after the second one has
 // been decoded (enumerated: every ordered pair of advertised encryption key sizes x every path to a descriptor).
